@@ -102,7 +102,7 @@ impl BitFont {
     pub fn calculate_checksum(&mut self) {
         let mut crc = 0;
         for ch in 0..self.length {
-            if let Some(glyph) = self.get_glyph(unsafe { char::from_u32_unchecked(ch as u32) }) {
+            if let Some(glyph) = char::from_u32(ch as u32).and_then(|ch| self.get_glyph(ch)) {
                 for b in &glyph.data {
                     crc = update_crc32(crc, *b);
                 }
@@ -122,7 +122,7 @@ impl BitFont {
     pub fn convert_to_u8_data(&self) -> Vec<u8> {
         let mut result = Vec::new();
         for ch in 0..self.length {
-            if let Some(glyph) = self.get_glyph(unsafe { char::from_u32_unchecked(ch as u32) }) {
+            if let Some(glyph) = char::from_u32(ch as u32).and_then(|ch| self.get_glyph(ch)) {
                 result.extend_from_slice(&glyph.data);
             } else {
                 log::error!("Glyph not found for char: {}", ch);
@@ -271,7 +271,11 @@ impl BitFont {
 
         // glyphs
         for i in 0..self.length {
-            data.extend(&self.get_glyph(unsafe { char::from_u32_unchecked(i as u32) }).unwrap().data);
+            if let Some(glyph) = char::from_u32(i as u32).and_then(|ch| self.get_glyph(ch)) {
+                data.extend(&glyph.data);
+            } else {
+                data.extend(vec![0; self.size.height as usize]);
+            }
         }
 
         Ok(data)
@@ -368,7 +372,9 @@ fn glyphs_from_u8_data(font_height: usize, mut data: &[u8]) -> HashMap<char, Gly
         let glyph = Glyph {
             data: data[..font_height].into(),
         };
-        glyphs.insert(unsafe { char::from_u32_unchecked(ch as u32) }, glyph);
+        if let Some(ch) = char::from_u32(ch as u32) {
+            glyphs.insert(ch, glyph);
+        }
 
         data = &data[font_height..];
         ch += 1;
